@@ -24,7 +24,22 @@ if ! cmp -s $V/build/Skel.v.new $V/coq/gen/Skel.v; then
   cp $V/build/Skel.v.new $V/coq/gen/Skel.v
   echo "Skel.v changed"
 fi
+# the arithmetic kernels, translated from the Go source (tools/go2coq)
+if [ ! -x $V/build/go2coq ] || [ $V/tools/go2coq/main.go -nt $V/build/go2coq ]; then
+  (cd $V/tools/go2coq && go1.26 build -o $V/build/go2coq .)
+fi
+cat $V/tools/go2coq/spec.txt $(ls $V/tools/go2coq/spec.d/*.txt 2>/dev/null) > $V/build/kern.spec
+krc=0
+$V/build/go2coq $V/build/kern.spec > $V/build/Kern.v.new 2> $V/build/go2coq.err || krc=1
+if ! cmp -s $V/build/Kern.v.new $V/coq/gen/Kern.v; then
+  cp $V/build/Kern.v.new $V/coq/gen/Kern.v
+  echo "Kern.v changed"
+fi
+[ $krc = 0 ] || { echo "go2coq: some kernels could not be translated:"; cat $V/build/go2coq.err; }
+# coq/lib (Kern.v uses GVL.Wrap)
+( cd $V/coq/lib && { [ -f Makefile ] || coq_makefile -f _CoqProject -o Makefile >/dev/null 2>&1; } && timeout 900 make >/dev/null 2>&1 ) || { echo "coq/lib build failed"; exit 1; }
 cd $V/coq/gen
 [ -f Makefile ] && [ Makefile -nt _CoqProject ] || rm -f Makefile
 [ -f Makefile ] || coq_makefile -f _CoqProject -o Makefile >/dev/null 2>&1
 timeout 600 make >/dev/null 2>&1 || { echo "coq/gen build failed"; exit 1; }
+[ $krc = 0 ] || exit 1
